@@ -469,11 +469,23 @@ def c19_pair(R):
     m = tree.mod(Z3)
     fn = tree.func(Z3, "condom.z3_condom")
 
+    # a private module-level helper through which *every* path calls _enter_z3 / _exit_z3 counts as that call
+    # (extracting the cleanup of the wrapper into a helper function changes nothing)
+    wrappers = {ENTER: {ENTER}, EXIT: {EXIT}}
+    for base in (ENTER, EXIT):
+        for hname, hfn in m.functions.items():
+            if "." in hname or hname in (ENTER, EXIT) or not any(isinstance(x, ast.Call) and dotted(x.func) == base for x in ast.walk(hfn)):
+                continue
+            hg = CFG(hfn, no_raise=lambda c: dotted(c.func) in (ENTER, EXIT))
+            missed = hg.paths_avoiding(hg.entry, lambda n_, b=base: n_.ast is not None and any(isinstance(x, ast.Call) and dotted(x.func) == b for x in ast.walk(n_.ast)))
+            if not missed:
+                wrappers[base].add(hname)
+
     def has_call(node, name):
-        return node is not None and any(isinstance(x, ast.Call) and dotted(x.func) == name for x in ast.walk(node))
+        return node is not None and any(isinstance(x, ast.Call) and dotted(x.func) in wrappers[name] for x in ast.walk(node))
 
     def no_raise(call):
-        return dotted(call.func) in (ENTER, EXIT)
+        return dotted(call.func) in wrappers[ENTER] | wrappers[EXIT]
 
     g = CFG(fn, no_raise=no_raise)
     enters = g.find(lambda n: n.kind == "stmt" and has_call(n.ast, ENTER))
@@ -511,8 +523,8 @@ def c19_pair(R):
         construct="z3_condom: exit without enter",
     )
     # exactly one enter / one exit call (no double counting)
-    n_enter = sum(1 for x in ast.walk(fn) if isinstance(x, ast.Call) and dotted(x.func) == ENTER)
-    n_exit = sum(1 for x in ast.walk(fn) if isinstance(x, ast.Call) and dotted(x.func) == EXIT)
+    n_enter = sum(1 for x in ast.walk(fn) if isinstance(x, ast.Call) and dotted(x.func) in wrappers[ENTER])
+    n_exit = sum(1 for x in ast.walk(fn) if isinstance(x, ast.Call) and dotted(x.func) in wrappers[EXIT])
     R.check(
         n_enter == 1 and n_exit == 1,
         m,
@@ -525,5 +537,5 @@ def c19_pair(R):
     for mm, q, f in tree.all_functions():
         for c in (n for n in walk_no_nested(f) if isinstance(n, ast.Call)):
             d = (dotted(c.func) or "").split(".")[-1]
-            if d in (ENTER, EXIT) and not (mm.path == Z3 and q == "condom.z3_condom"):
+            if d in (ENTER, EXIT) and not (mm.path == Z3 and (q == "condom.z3_condom" or q in wrappers[ENTER] | wrappers[EXIT])):
                 R.bad(mm, c, f"{q} calls {d}() directly; pairing is only guaranteed through the condom wrapper")
